@@ -77,6 +77,10 @@ def bfs_scenarios(quick: bool) -> list[dict]:
         sc.append({"qos_mode": False, "flat": True, "max_held": 1, "callers": [caller("rq30c9_01", timeout=20.0)], "dev": ("drop", "dup", "late", "wfail", "disc")})
         sc.append({"qos_mode": False, "flat": True, "callers": [caller("rq30c9_01", timeout=20.0), caller("w2309_02", timeout=20.0)], "dev": ("drop", "dup", "disc")})
         sc.append({"qos_mode": False, "flat": True, "callers": [caller("rq30c9_01", timeout=1.5001), caller("rq30c9_01", timeout=20.0, start="q")], "dev": ("drop", "dup", "call")})
+        sc.append({"qos_mode": False, "flat": True, "max_held": 2, "callers": [caller("rq30c9_01", timeout=20.0)], "dev": ("drop", "dup", "late")})
+        sc.append({"qos_mode": False, "flat": True, "callers": [caller("rq30c9_01", timeout=20.0), caller("w2309_02", timeout=20.0)], "dev": ("drop", "dup", "wfail", "disc")})
+        sc.append({"qos_mode": False, "flat": True, "callers": [caller("rq30c9_01", timeout=20.0), caller("w2309_02", timeout=20.0), caller("rq30c9_03", timeout=20.0, prio="LOW")], "dev": ("drop", "disc")})
+        sc.append({"qos_mode": False, "flat": True, "callers": [caller("rq30c9_01", timeout=0.5001), caller("w2309_02", timeout=1.5001, prio="HIGH")], "dev": ("drop", "dup", "wfail", "disc")})
     return sc
 
 
